@@ -370,7 +370,8 @@ def specs_derived(tier):
 HIST_OPS = ([['rename_layer', i] for i in range(4)] + [['rename_column', 0], ['rename_column', -1]] +
             [['atm', t] for t in range(3)] + [['conv', c] for c in (0, 2, 3)] +
             [['order', o] for o in ('none', 'layer_column', 'dmplex')] +
-            [['translate'], ['rotate'], ['refine', 0], ['reduce'], ['copy_layers', 'lower'], ['refine_layers', 1]])
+            [['translate'], ['rotate'], ['refine', 0], ['reduce'], ['copy_layers', 'lower'], ['refine_layers', 1],
+             ['relayer', 'higher'], ['relayer', 'lower']])
 _HIST_CACHE = {}
 
 
@@ -437,6 +438,15 @@ def apply_edit(g, op):
         g.copy_layers_from(other)
     elif k == 'refine_layers':
         g.refine_layers([g.layerlist[min(op[1], g.num_layers - 1)]])
+    elif k == 'relayer':
+        # the layer structure replaced through add_layers(), which leaves the per-column layer counts and the name
+        # lists to the caller: followed by the maintenance calls its users make (as rectangular() itself does)
+        top = g.layerlist[0].bottom + {'higher': 45.5, 'lower': -7.25}[op[1]]
+        g.add_layers([30., 12.75, 50.], top)
+        for col in g.columnlist:
+            g.set_column_num_layers(col)
+        g.setup_block_name_index()
+        g.setup_block_connection_name_index()
     else:
         raise core.HarnessError('unknown edit %r' % (op,))
 
